@@ -421,12 +421,14 @@ Plan gen_mt_plan(const std::string &, Rng &rng, long long, const std::string &ti
             break;
           }
         t.proj.has_ast = false;
-      } else if (rng.chance(1, 6)) {
+      } else if (rng.chance(1, 4)) {
         // a project with errors: compile messages must be deterministic too
         auto it = t.proj.files.begin();
         std::advance(it, (long)rng.below(t.proj.files.size()));
         std::string &f = it->second;
-        if (!f.empty()) { size_t pos = rng.below(f.size()); f.insert(pos, rng.chance(1, 2) ? " ; ; " : " nosuch := RUN nosuch WITH 1 END "); }
+        static const char *BAD[] = {" ; ; ", " nosuch := RUN nosuch WITH 1 END ", " ; x0 := 99999999999999999999 ; ", " ; x0 := x0 + 340282366920938463463374607431768211456 ; ",
+                                    " DEFINE PRIO 99999999999999999999 zz AS x0 := 1 END DEFINE ", " DEFINE zz <ID> AS $0 := $18446744073709551616 END DEFINE "};
+        if (!f.empty()) { size_t pos = rng.below(f.size()); f.insert(pos, BAD[rng.below(6)]); }
         t.proj.has_ast = false;
       }
     }
